@@ -24,6 +24,7 @@ import xarray as xr
 PID = "C06"
 
 import holopy as hp
+from holopy.scattering.theory import Lens
 from holopy.scattering import Sphere, Spheres, calc_holo, calc_field, Mie, MieLens
 from holopy.core.metadata import detector_grid, detector_points, update_metadata
 
@@ -123,7 +124,8 @@ def run(ctx):
              ("layered", Sphere(n=[1.59, 1.4], r=[0.3, 0.5], center=(0.7, 0.5, 5.0)), Mie()),
              ("two_spheres", Spheres([Sphere(n=1.59, r=0.4, center=(0.2, 0.5, 5.0)),
                                       Sphere(n=1.5, r=0.3, center=(1.4, 0.6, 6.0))]), Mie()),
-             ("mielens", Sphere(n=1.59, r=0.5, center=(0.7, 0.5, 3.0)), MieLens(lens_angle=0.8))]
+             ("mielens", Sphere(n=1.59, r=0.5, center=(0.7, 0.5, 3.0)), MieLens(lens_angle=0.8)),
+             ("lens_mie", Sphere(n=1.59, r=0.5, center=(0.7, 0.5, 3.0)), Lens(0.8, Mie(False, False), 24, 24))]
     for st in g.states.values():
         a, b = POLS[st["req"]["pol"]]
         for name, sc, th in scats:
@@ -216,6 +218,34 @@ def run(ctx):
             ctx.trace_ok()
     except Exception as e:
         ctx.violation("channels/metadata_exception", {"exc": repr(e)})
+    # per-channel noise: the multi-channel log-likelihood is the sum of the single-channel ones
+    from holopy.inference import AlphaModel, prior as _prior
+    for labels, noise in ((["red", "green"], {"green": 0.2, "red": 0.05}), (["green", "red", "blue"], {"red": 0.07, "green": 0.07, "blue": 0.3})):
+        ctx.case(("channels", "likelihood", tuple(labels)), nontrivial=True)
+        try:
+            wl = {l: BASE["wavelength"][l] for l in labels}
+            det_m = detector_grid(5, 0.4, extra_dims={"illumination": labels})
+            truth = Sphere(n=1.5, r=0.5, center=(1.1, 1.0, 5.0))
+            data = calc_holo(det_m, truth, medium_index=1.33, illum_wavelen=wl, illum_polarization=(1, 0), theory=Mie())
+            data = data + 0.03 * np.cos(np.arange(data.size)).reshape(data.shape)
+            data = update_metadata(data, noise_sd=noise)
+            s_ = Sphere(n=_prior.Uniform(1.4, 1.7), r=0.5, center=(1.1, 1.0, 5.0))
+            m = AlphaModel(s_, alpha=0.9, medium_index=1.33, illum_wavelen=wl, illum_polarization=(1, 0), theory=Mie())
+            multi = float(m.lnlike({"n": 1.55}, data))
+            tot = 0.0
+            for l in labels:
+                d1 = data.sel(illumination=l).drop_vars("illumination")
+                d1 = update_metadata(d1, illum_wavelen=wl[l], noise_sd=noise[l])
+                m1 = AlphaModel(s_, alpha=0.9, medium_index=1.33, illum_wavelen=wl[l], illum_polarization=(1, 0), theory=Mie())
+                tot += float(m1.lnlike({"n": 1.55}, d1))
+            dd = abs(multi - tot) / max(1.0, abs(tot))
+        except Exception as ex_:
+            ctx.violation("channels/likelihood/exception", {"labels": labels, "exc": repr(ex_)[:300]})
+            continue
+        if dd > 1e-10:
+            ctx.violation("channels/likelihood_is_sum_of_channels", {"labels": labels, "multi": multi, "sum": tot})
+        else:
+            ctx.trace_ok()
     ctx.exhaustive = not quick
 
 
